@@ -149,7 +149,8 @@ def parse_failing(out):
 def build_harness(repo, work, race):
     hdir = os.path.join(work, "harness")
     os.makedirs(hdir, exist_ok=True)
-    for f in glob.glob(os.path.join(VERIF, "harness", "*.go")):
+    hsrc = os.environ.get("VERIF_HARNESS_SRC", os.path.join(VERIF, "harness"))   # development aid: another snapshot of the harness sources
+    for f in glob.glob(os.path.join(hsrc, "*.go")):
         shutil.copy(f, hdir)
     gomod = open(os.path.join(VERIF, "harness", "go.mod")).read()
     gomod = re.sub(r"replace go\.pennock\.tech/tabular => \S+", "replace go.pennock.tech/tabular => " + repo, gomod)
